@@ -17,6 +17,7 @@ inductive KeyKind
   | none            -- not keyed (counter, plain list …)
   | globalConfig    -- process-wide configuration attribute (written only by explicit setters)
   | otherClass      -- a write onto a class other than the subject of the operation (base, field owner …)
+  | partialArgs     -- the key omits an argument the memoised value depends on (e.g. a flag of the call)
   | unknown         -- key expression the extractor cannot classify
   deriving DecidableEq, Repr, Inhabited
 
@@ -24,6 +25,7 @@ inductive RegKind
   | dict | list | set | counter | lruCache | config
   | classAttrWrite      -- `cls.x = …` / `setattr(cls, x, …)` after definition
   | inPlaceClassAttr    -- in-place mutation of a list/dict read from the class without copying
+  | inPlaceCacheEntry   -- in-place mutation of an object handed out by a cache (the entry itself changes)
   deriving DecidableEq, Repr, Inhabited
 
 structure RegistryRec where
@@ -37,12 +39,15 @@ structure RegistryRec where
 
 /-- a row is safe when the state cannot carry information from one class to another -/
 def RegistryRec.safe (r : RegistryRec) : Bool :=
-  (r.key != .className) && (r.key != .otherClass) && (r.key != .unknown) && (r.kind != .inPlaceClassAttr)
+  (r.key != .className) && (r.key != .otherClass) && (r.key != .unknown) && (r.key != .partialArgs) &&
+  (r.kind != .inPlaceClassAttr) && (r.kind != .inPlaceCacheEntry)
 
 /-- stable finding key of an unsafe row (same strings as in known_findings.json) -/
 def RegistryRec.findingKey (r : RegistryRec) : String :=
   if r.kind == .inPlaceClassAttr then "mutates-" ++ r.name ++ ":" ++ r.site
+  else if r.kind == .inPlaceCacheEntry then "mutates-cache-entry:" ++ r.name ++ ":" ++ r.site
   else match r.key with
+    | .partialArgs => "key-drops-argument:" ++ r.name
     | .className => "name-keyed:" ++ r.name
     | .otherClass => "foreign-class-write:" ++ r.name ++ ":" ++ r.site
     | .unknown => "unclassified-key:" ++ r.name
@@ -52,6 +57,7 @@ def RegistryRec.findingKey (r : RegistryRec) : String :=
 structure Config where
   wrapperByName : Bool        -- `FieldMeta._registry` is keyed by the bare `__name__` of the wrapped class
   mapperByName : Bool         -- `aggregated_mapper_by_class` keyed by class name (not by class)
+  mapperDropsCamel : Bool     -- its key omits the `camel_case_convert` argument of the call
   simplicityByName : Bool     -- `_structure_simplicity_level` memo keyed by class name
   schemaWritesRequired : Bool -- `structure_to_schema` mutates the list held in `cls._required`
   serializerOnBase : Bool     -- `create_serializer` installs `serialize` on another class than `cls`
@@ -62,19 +68,21 @@ def hasRow (rows : List RegistryRec) (p : RegistryRec → Bool) : Bool := rows.a
 /-- every switch is "the table has an UNSAFE row for that registry" -/
 def configOf (rows : List RegistryRec) : Config where
   wrapperByName := hasRow rows fun r => r.name == "FieldMeta._registry" && !r.safe
-  mapperByName := hasRow rows fun r => r.name == "aggregated_mapper_by_class" && !r.safe
-  simplicityByName := hasRow rows fun r => r.name == "_structure_simplicity_level" && !r.safe
-  schemaWritesRequired := hasRow rows fun r => r.name == "cls._required" && !r.safe
+  mapperByName := hasRow rows fun r => (r.name == "aggregated_mapper_by_class" && r.kind == .dict && r.key != .partialArgs) && !r.safe
+  mapperDropsCamel := hasRow rows fun r => (r.name == "aggregated_mapper_by_class" && r.kind == .dict && r.key == .partialArgs) && !r.safe
+  simplicityByName := hasRow rows fun r => (r.name == "_structure_simplicity_level" && r.kind != .inPlaceCacheEntry) && !r.safe
+  schemaWritesRequired := hasRow rows fun r => (r.name == "cls._required" && r.site == "structure_to_schema") && !r.safe
   serializerOnBase := hasRow rows fun r => r.name == "cls.serialize" && !r.safe
 
 /-- the configuration under which the frame property holds without exclusions -/
 def Config.safe (c : Config) : Bool :=
-  !c.wrapperByName && !c.mapperByName && !c.simplicityByName && !c.schemaWritesRequired && !c.serializerOnBase
+  !c.wrapperByName && !c.mapperByName && !c.mapperDropsCamel && !c.simplicityByName &&
+  !c.schemaWritesRequired && !c.serializerOnBase
 
 /-- the part of safety that the current code has (identity-keyed caches, serializer on the class itself) -/
 def Config.cachesById (c : Config) : Bool :=
-  !c.mapperByName && !c.simplicityByName && !c.serializerOnBase
+  !c.mapperByName && !c.mapperDropsCamel && !c.simplicityByName && !c.serializerOnBase
 
-def safeConfig : Config := ⟨false, false, false, false, false⟩
+def safeConfig : Config := ⟨false, false, false, false, false, false⟩
 
 end Typedpy.World
